@@ -13,7 +13,30 @@ def _scale(rng):
     return rng.choice([1.0, 1.0, 1.0, 1.0, 1e-3, 1e3])
 
 
-def stream_values(rng, n, kind=None, drift_rate=None, nd=4):
+# ---- data regimes: the same stream in a numerically awkward but legitimate representation.  A caller names the regimes its
+# oracle is sound for (decided per check after running every regime against the unchanged tree, DESIGN.md 9.10); about one
+# workload in seven is then moved into one of them after it has been generated.
+#   offset  : + 1e9 (timestamps, identifiers: |mean| / spread ~ 1e9)        tiny : x 1e-9 (SI units at nano scale)
+#   lattice : rounded to multiples of 0.5 (counts, coarse sensors: many ties, values exactly on split points / bin edges)
+def apply_regime(rng, values, regimes, p=0.15):
+    """values: nested lists of floats.  Returns (values, regime or None).  Draws from rng only when regimes is non-empty."""
+    if not regimes or rng.random() >= p:
+        return values, None
+    reg = rng.choice(list(regimes))
+
+    def f(v):
+        if isinstance(v, list):
+            return [f(u) for u in v]
+        if reg == "offset":
+            return float(v) + 1e9
+        if reg == "tiny":
+            return float(v) * 1e-9
+        return round(float(v) * 2) / 2.0
+
+    return f(values), reg
+
+
+def stream_values(rng, n, kind=None, drift_rate=None, nd=4, regimes=()):
     """Univariate real stream with regime changes.  Returns (values, drift_positions)."""
     kind = kind or rng.choice(["gauss", "gauss", "gauss", "bern", "ramp", "heavy"])
     drift_rate = drift_rate if drift_rate is not None else rng.choice([0.005, 0.01, 0.02, 0.04])
@@ -40,6 +63,7 @@ def stream_values(rng, n, kind=None, drift_rate=None, nd=4):
             out.append(_r(scale * (mu + sd * rng.gauss(0, 1) * (5.0 if rng.random() < 0.03 else 1.0)), nd))
         else:
             out.append(_r(scale * rng.gauss(mu, sd), nd))
+    out, _ = apply_regime(rng, out, regimes if kind != "bern" else ())
     return out, drifts
 
 
@@ -62,7 +86,7 @@ def outcomes(rng, n, burst=None):
     return out, drifts
 
 
-def mv_stream(rng, n, d, drift_rate=None, nd=4):
+def mv_stream(rng, n, d, drift_rate=None, nd=4, regimes=()):
     """Multivariate stream (list of rows) with level / variance / correlation regime changes."""
     drift_rate = drift_rate if drift_rate is not None else rng.choice([0.005, 0.01, 0.03])
     mu = [rng.choice([0.0, 1.0, -3.0]) for _ in range(d)]
@@ -90,10 +114,11 @@ def mv_stream(rng, n, d, drift_rate=None, nd=4):
         for j in range(1, d):
             z[j] = rho * z[0] + math.sqrt(max(0.0, 1 - rho * rho)) * z[j]
         rows.append([_r(scale * (mu[j] + sd[j] * z[j]), nd) for j in range(d)])
+    rows, _ = apply_regime(rng, rows, regimes)
     return rows, drifts
 
 
-def batches(rng, nb, d, size_lo=8, size_hi=60, equal=None, drift_rate=None, nd=3, dup=0.0, integer=False):
+def batches(rng, nb, d, size_lo=8, size_hi=60, equal=None, drift_rate=None, nd=3, dup=0.0, integer=False, regimes=()):
     """List of batches (each a list of rows) with regime changes between batches."""
     drift_rate = drift_rate if drift_rate is not None else rng.choice([0.15, 0.3, 0.5])
     equal = rng.random() < 0.5 if equal is None else equal
@@ -121,4 +146,5 @@ def batches(rng, nb, d, size_lo=8, size_hi=60, equal=None, drift_rate=None, nd=3
                 row = [scale * rng.gauss(mu[j], sd[j]) for j in range(d)]
                 rows.append([float(round(v)) if integer else _r(v, nd) for v in row])
         out.append(rows)
+    out, _ = apply_regime(rng, out, regimes if not integer else ())
     return out, drifts
